@@ -82,6 +82,7 @@ def model_body(b, variant=0):
 
 
 def content_type_for(name):
+    name = name.lower()       # (extensions compare case-insensitively)
     if name.endswith(".ics"):
         return "text/calendar"
     if name.endswith(".vcf"):
